@@ -49,8 +49,10 @@ func (s *verifLeaseStore) luaCall(args []verifLuaVal) verifLuaVal {
 	case "SET":
 		s.exists, s.value = true, args[2].s
 		s.expireAt = 1 << 62
-		if len(args) >= 5 && strings.ToUpper(args[3].s) == "EX" {
-			s.expireAt = s.now + args[4].n
+		for i := 3; i+1 < len(args); i++ {
+			if strings.ToUpper(args[i].s) == "EX" {
+				s.expireAt = s.now + args[i+1].n
+			}
 		}
 	case "EXPIRE":
 		if s.live() {
@@ -210,6 +212,44 @@ func (s *verifLeaseStore) Do(cmd string, args ...interface{}) (interface{}, erro
 		if s.live() {
 			rep = []byte(s.value)
 		}
+	case "del", "set", "expire", "pexpire", "ttl", "exists":
+		// plain commands, with the same store semantics as inside a script
+		la := []verifLuaVal{{s: cmd}}
+		for _, a := range args {
+			la = append(la, verifToLua(a))
+		}
+		up := strings.ToUpper(cmd)
+		switch up {
+		case "DEL":
+			var n int64
+			if s.live() {
+				n = 1
+			}
+			s.luaCall(la)
+			rep = n
+		case "SET":
+			nx := false
+			for _, a := range la[3:] {
+				if strings.ToUpper(a.s) == "NX" {
+					nx = true
+				}
+			}
+			if nx && s.live() {
+				rep = nil
+			} else {
+				s.luaCall(la)
+				rep = "OK"
+			}
+		case "EXPIRE":
+			var n int64
+			if s.live() {
+				n = 1
+			}
+			s.luaCall(la)
+			rep = n
+		default:
+			s.badLua = "command " + cmd
+		}
 	default:
 		s.badLua = "command " + cmd
 	}
@@ -273,7 +313,12 @@ func VerifC15Step() {
 	op := verifChoose("op", 3)
 	ctx := context.Background()
 	unchanged := func() bool {
-		return st.exists == preExists && (!preExists || (st.value == preValue && st.expireAt == preExpire))
+		// observable state only: an expired record and an absent one are the same store
+		preLive := preExists && st.now < preExpire
+		if !preLive {
+			return !st.live()
+		}
+		return st.live() && st.value == preValue && st.expireAt == preExpire
 	}
 	switch op {
 	case 0, 1: // campaign, renew
@@ -288,7 +333,9 @@ func VerifC15Step() {
 				role = RoleLeader
 			}
 		}
-		verifAssert(st.badLua == "", "C15.script-outside-modelled-subset")
+		if st.badLua != "" {
+			verifUnsupported("election talks to the store outside the modelled command/script subset: " + st.badLua)
+		}
 		told := err == nil && role == RoleLeader
 		verifObserve("told", verifB2I(told))
 		if st.loseCall {
@@ -312,7 +359,9 @@ func VerifC15Step() {
 		verifCover(heldByOther, "c15.refused")
 	default: // resign
 		err := e.Resign(ctx)
-		verifAssert(st.badLua == "", "C15.script-outside-modelled-subset")
+		if st.badLua != "" {
+			verifUnsupported("election talks to the store outside the modelled command/script subset: " + st.badLua)
+		}
 		if st.loseCall {
 			verifAssert(err != nil && unchanged(), "C15.lost-call-has-effect")
 			return
